@@ -304,7 +304,12 @@ Print Assumptions C13_mode_decides.
    read from the source on this run — interpreted on every environment (the three flags; new
    values nil / empty / non-empty; deployed values nil / empty / non-empty): exactly one path is
    taken, and it returns what the model decides: the caller's map, current.Config, or the overlay
-   onto a COPY of the caller's map, with or without the old defaults. *)
+   onto a COPY of the caller's map, with or without the old defaults.  First: the translator met
+   nothing on those paths that it could not interpret (else the list names it). *)
+Theorem C13_reuse_table_understood : Gen.C13Reuse.reuse_rows_unknown = [].
+Proof. exact reuse_rows_understood. Qed.
+Print Assumptions C13_reuse_table_understood.
+
 Theorem C13_reuse_table : forall e : renv,
   decide e Gen.C13Reuse.reuse_rows = Some
     (if e_reset e then mkAct RNew false
